@@ -281,6 +281,9 @@ func (e *env) run(orig Input) Obs {
 			for _, t := range batch {
 				ids = append(ids, t.ID)
 			}
+			if len(ids) > 4*len(in.Rows)+8 {
+				return fmt.Errorf("FindInBatches keeps delivering rows: %d from a table of %d", len(ids), len(in.Rows))
+			}
 			return nil
 		}).Error)
 		o.Same = append(o.Same, sorted(ids))
